@@ -31,14 +31,26 @@ def correspond(ctx):
     n = 8 if tier == "quick" else 160
     cases, meta = [], []
     rejected = 0
+    type_div = []
     for k in range(n):
         p = ic.gen_params(rng, small=(tier == "quick" or k % 3 != 0))
+        if k == 0:
+            p.update({"kind": "fried", "nx": 6, "extra": 2, "ps": 1, "r0": 1.0, "L0": 30.0})      # integer pixel scale (metres per pixel)
+        if k == 1:
+            p.update({"kind": "vk", "nx": 6, "extra": 2, "ps": 2, "r0": 1.5, "L0": 25.0})
         gen = ic.ScriptedGenerator(rng.getrandbits(30))
         try:
             with ic.Recorders() as rec:
                 s = ic.make_screen(p["kind"], p["nx"], p["ps"], p["r0"], p["L0"], p["extra"], gen)
         except Exception as ex:
             rejected += 1
+            if isinstance(p["ps"], int):
+                # "construction succeeds" must not depend on the numeric type of the pixel scale
+                try:
+                    ic.make_screen(p["kind"], p["nx"], float(p["ps"]), p["r0"], p["L0"], p["extra"], ic.ScriptedGenerator(1))
+                    type_div.append(dict(p, stage="construction", what="construction fails for an integer pixel_scale but succeeds for the equal float: %s" % type(ex).__name__))
+                except Exception:
+                    pass
             continue
         nx, ns = s.nx_size, s.n_stencils
         st_coq = ("vk_stencil %d %d" % (nx, p["extra"])) if p["kind"] == "vk" else ("fried_stencil F %d %d" % (nx, p["extra"]))
@@ -90,7 +102,7 @@ def correspond(ctx):
     for m in meta:
         key = "%s/%s" % (m["kind"], m["stage"])
         hist[key] = hist.get(key, 0) + 1
-    div = [dict(meta[i], what="model != implementation at this stage") for i in failing]
+    div = [dict(meta[i], what="model != implementation at this stage") for i in failing] + type_div
     return {"cases": nev, "nontrivial": sum(1 for m in meta if m["nontrivial"]), "divergences": div, "errors": errors,
             "samples": [meta[0], meta[len(meta) // 2], meta[-1]], "hist": hist}
 
@@ -146,8 +158,14 @@ def property_checks(p):
     for i, (r0f, psf) in enumerate([(1.0, 1.0)] + ([(2.0, 1.0), (1.0, 1.5)] if p.get("family") else [])):
         gen = ic.ScriptedGenerator(p["data_seed"] + i)
         try:
-            s = ic.make_screen(p["kind"], p["nx"], p["ps"] * psf, p["r0"] * r0f, p["L0"], p["extra"], gen)
-        except Exception:
+            s = ic.make_screen(p["kind"], p["nx"], (p["ps"] if psf == 1.0 else p["ps"] * psf), p["r0"] * r0f, p["L0"], p["extra"], gen)
+        except Exception as ex:
+            if isinstance(p["ps"], int) and psf == 1.0:
+                try:
+                    ic.make_screen(p["kind"], p["nx"], float(p["ps"]), p["r0"] * r0f, p["L0"], p["extra"], ic.ScriptedGenerator(1))
+                    A(("construction succeeds for an integer pixel scale whenever it does for the equal float", 1.0, 0.0))
+                except Exception:
+                    pass
             continue
         checks_for_screen(s, p, A, "" if i == 0 else " (after a sibling screen)")
     return out
@@ -162,6 +180,10 @@ def falsify(ctx, deep=False):
         p["data_seed"] = rng.getrandbits(30); p["shift"] = rng.uniform(-50, 50); p["family"] = (k % 2 == 0)
         if k == 1:
             p.update({"kind": "fried", "nx": 128, "extra": 4, "ps": 0.1, "r0": 0.15, "L0": 30.0, "family": False})
+        if k == 2:
+            p.update({"kind": "fried", "nx": 6, "extra": 2, "ps": 1, "r0": 1.0, "L0": 30.0})       # integer pixel scale
+        if k == 3:
+            p.update({"kind": "vk", "nx": 6, "extra": 2, "ps": 2, "r0": 1.5, "L0": 25.0})
         try:
             res = property_checks(p)
         except Exception as ex:
